@@ -100,6 +100,44 @@ def _gen_level_nav(src, level, counter, msg_hdr_uid=None):
     return uid
 
 
+def level_fields(level, base_off=0):
+    """non-constant fields of a level as the generated cursor accessors see them:
+    (name, rel, abs, size, is_view, last)"""
+    out = []
+    # consecutive leaves with the same first path element form one field
+    groups = []
+    for lf in level['leaves']:
+        if groups and groups[-1][0] == lf['path'][0]:
+            groups[-1][1].append(lf)
+        else:
+            groups.append((lf['path'][0], [lf]))
+    prev_end = 0
+    for i, (name, lfs) in enumerate(groups):
+        off = min(l['off'] for l in lfs)
+        end = max(l['off'] + l['size'] for l in lfs)
+        is_view = not (len(lfs) == 1 and len(lfs[0]['path']) == 1 and lfs[0]['kind'] != 'array')
+        out.append({'name': name, 'rel': off - prev_end, 'abs': off + base_off, 'size': end - off,
+                    'is_view': is_view, 'last': i == len(groups) - 1})
+        prev_end = end
+    return out
+
+
+def _gen_trav(src, level, counter):
+    children = [_gen_trav(src, g['level'], counter) for g in level['groups']]
+    uid = next(counter)
+    src.append('template<typename V, typename C> static void travL_%d(V v, C& c, c10::ctrav& t) {' % uid)
+    src.append('  (void)v; (void)c; (void)t;')
+    for f in level_fields(level):
+        src.append('  C10_ACC(t, v, %s, c) (void)v.%s(c);' % (f['name'], f['name']))
+    for g, cu in zip(level['groups'], children):
+        src.append('  { C10_ACC(t, v, %s, c) auto g = v.%s(c);' % (g['name'], g['name']))
+        src.append('    for(auto e : g.cursor_range(c)) { travL_%d(e, c, t); } }' % cu)
+    for d in level['datas']:
+        src.append('  C10_ACC(t, v, %s, c) (void)v.%s(c);' % (d['name'], d['name']))
+    src.append('}')
+    return uid
+
+
 def _counter():
     n = 0
     while True:
@@ -123,7 +161,13 @@ def gen_driver(pkg, layout):
         src.append('  auto m = sbepp::make_view<%s>(p, n);' % cls)
         src.append('  navL_%d(m, path, 0);' % lu)
         src.append('}')
-        rows.append('  {"%s", c10::fn_t{run_%s}},' % (m['name'], m['name']))
+        tu = _gen_trav(src, m['level'], counter)
+        src.append('static void crun_%s(char* p, std::size_t n, c10::ctrav& t) {' % m['name'])
+        src.append('  auto m = sbepp::make_view<%s>(p, n);' % cls)
+        src.append('  auto c = sbepp::init_cursor(m);')
+        src.append('  travL_%d(m, c, t);' % tu)
+        src.append('}')
+        rows.append('  {"%s", c10::msg_entry{c10::fn_t{run_%s}, c10::cfn_t{crun_%s}}},' % (m['name'], m['name'], m['name']))
     src.append('int main() { return c10::main_loop({')
     src += rows
     src.append('}); }')
@@ -493,6 +537,164 @@ class Spec:
         for st in steps:
             pos = self.advance(pos, st, ch)
         return pos
+
+
+CVARS = ['plain', 'init', 'dont_move', 'init_dont_move', 'skip']
+
+
+def clevel_sexp(level, base_off=0):
+    fs = ' '.join('(f %d %d %d %d %d)' % (f['rel'], f['abs'], f['size'], 1 if f['is_view'] else 0,
+                                           1 if f['last'] else 0) for f in level_fields(level, base_off))
+    gs = ' '.join('(g (dim %d %d %d %d %d) %s)' % (
+        g['dim']['size'], g['dim']['blOff'], g['dim']['blSize'], g['dim']['numOff'], g['dim']['numSize'],
+        clevel_sexp(g['level'])) for g in level['groups'])
+    ds = ' '.join(str(d['lenSize']) for d in level['datas'])
+    return '(cl (fields %s) (groups %s) (datas %s))' % (fs, gs, ds)
+
+
+def lean_ctrav_request(bo, base, img, ns, m, needs, detail=False):
+    bl = [l for l in m['hdrLeaves'] if l['path'] == ['blockLength']][0]
+    # `abs` of message fields includes the header; `rel` is relative to the cursor, which init_cursor puts behind it
+    lv = clevel_sexp(m['level'], m['hdrSize'])
+    return 'ctrav (req (bo %s) (base %d) (img x%s) (ns %s) (cmsg (hdr %d %d %d) %s) (needs %s)%s)' % (
+        'be' if bo == 'big' else 'le', base, ''.join('%02x' % b for b in img), ns, m['hdrSize'], bl['off'], bl['size'],
+        lv, ' '.join(str(min(x, INF)) for x in needs), ' (detail)' if detail else '')
+
+
+class CursorSpec:
+    """needs of a cursor traversal of the whole message (plain cursor; entries through cursor_range) and of
+    each member accessed through each wrapper, by the SBE layout rules applied to the image"""
+
+    def __init__(self, spec):
+        self.s = spec
+        self.members = []      # dict(kind, pre, needs{var}, view)
+        self.pending = 0
+        self.views = []
+        spec.cur = Chain()
+        try:
+            self._level(spec.m['level'], {'vb': 0, 'msg': True, 'bl': 0})
+        except Beyond:
+            # the traversal runs off the image at the member after the last recorded one
+            self.members.append({'kind': 'beyond-image', 'pre': INF, 'needs': {v: INF for v in CVARS}, 'view': 0,
+                                 'nviews': len(self.views)})
+        self.huge = spec.cur.huge
+
+    def _add(self, kind, needs, view):
+        self.members.append({'kind': kind, 'pre': self.pending, 'needs': needs, 'view': view,
+                             'nviews': len(self.views)})
+        self.pending = 0
+
+    def _lv_end(self, view):
+        s = self.s
+        if view['msg']:
+            if s.m['hdrSize'] > s.L:
+                raise Beyond()
+            return s.m['hdrSize'] + s.rd(s.blOff, s.blSize), s.m['hdrSize']
+        return view['vb'] + view['bl'], 0
+
+    def _level(self, level, view):
+        s = self.s
+        base_off = s.m['hdrSize'] if view['msg'] else 0
+        for f in level_fields(level, base_off):
+            nd = view['vb'] + f['abs'] + (0 if f['is_view'] else f['size'])
+            kind = 'cursor.field.' + ('view' if f['is_view'] else 'scalar') + ('.last' if f['last'] else '')
+            self._add(kind, {v: nd for v in CVARS}, view['vb'])
+        if not level['groups'] and not level['datas']:
+            return
+        p, lvneed = self._lv_end(view)
+        getter_need = lvneed
+        first = True
+        for g in level['groups']:
+            dim = g['dim']
+            self.views.append(p)
+            hdr = p + dim['size']
+            _, sz_need = (None, INF)
+            try:
+                endg, sz_need = s.size_group(g, p)
+            except Beyond:
+                endg = None
+            base = lvneed if first else getter_need
+            needs = {'plain': max(base, hdr), 'init': max(base, hdr), 'dont_move': base, 'init_dont_move': base,
+                     'skip': max(base, sz_need, hdr)}
+            self._add('cursor.group' + ('.first' if first else ''), needs, p)
+            if hdr > s.L:
+                raise Beyond()
+            num = s.rd(p + dim['numOff'], dim['numSize'])
+            bl = s.rd(p + dim['blOff'], dim['blSize'])
+            q = hdr
+            empty = not level_fields(g['level']) and not g['level']['groups'] and not g['level']['datas']
+            for _ in range(num):
+                self.views.append(q)
+                if empty:
+                    self.pending = max(self.pending, q + bl)
+                    q = q + bl
+                else:
+                    endq, _nd = s.size_level(g['level'], q, bl)
+                    self._level(g['level'], {'vb': q, 'msg': False, 'bl': bl})
+                    q = endq
+                if q > s.L + (1 << 33):
+                    raise Beyond()
+            if endg is None:
+                raise Beyond()
+            getter_need = max(getter_need, sz_need)
+            p = endg
+            first = False
+        for d in level['datas']:
+            self.views.append(p)
+            base = lvneed if first else getter_need
+            nd = p + d['lenSize']
+            needs = {'plain': max(base, nd), 'init': max(base, nd), 'dont_move': base, 'init_dont_move': base,
+                     'skip': max(base, nd)}
+            self._add('cursor.data' + ('.first' if first else ''), needs, p)
+            endd, dn = s.size_data(d, p)
+            getter_need = max(getter_need, dn)
+            p = endd
+            first = False
+
+    def past_end(self, k, n):
+        return any(p > n for p in self.views[:self.members[k]['nviews']])
+
+    def runs(self):
+        """[(k, var, needs_end, kind)] in the driver's order"""
+        out = []
+        acc = self.s.m['hdrSize']     # init_cursor: header check
+        for k, mem in enumerate(self.members):
+            for v in CVARS:
+                out.append((k, v, max(acc, mem['pre'], mem['needs'][v]), mem['kind']))
+            acc = max(acc, mem['pre'], mem['needs']['plain'])
+        return out
+
+
+def exact_composites(sch, m_name):
+    """False if a composite-typed field of the message begins before its first non-constant leaf (first element
+    with a custom offset): the cursor accessor constants cannot be reconstructed from the leaves then"""
+    types = {t['name']: t for t in sch['types'] if 'name' in t}
+
+    def first_off(e):
+        k = e.get('k')
+        if k == 'composite':
+            for x in e['elems']:
+                if x.get('k') == 'type' and x.get('presence') == 'constant':
+                    continue
+                if x.get('offset') not in (None, 0, '0'):
+                    return True
+                return first_off(x)
+            return False
+        if k == 'ref':
+            t = types.get(e.get('type'))
+            return first_off(t) if t else False
+        return False
+
+    def lv(level):
+        for f in level.get('fields', []):
+            t = types.get(f.get('type'))
+            if t and first_off(t):
+                return False
+        return all(lv(g) for g in level.get('groups', []))
+    for m in sch['messages']:
+        if m['name'] == m_name:
+            return lv(m)
+    return True
 
 
 def view_begin(pos):
